@@ -6,8 +6,8 @@ import pipeline
 import talgen
 
 PID = 'C10'
-PROOF_MODULES = ['ChamProofs.Props.C10', 'ChamProofs.Props.C10Scope', 'ChamProofs.Props.C10Offer']
-THEOREMS = ['ChamVerif.C10_translate_once', 'ChamVerif.C10_translate_explicit', 'ChamVerif.C10_empty_not_translated', 'ChamVerif.C10_name_emits_placeholder',
+PROOF_MODULES = ['ChamProofs.Props.C10', 'ChamProofs.Props.C10Scope', 'ChamProofs.Props.C10Offer', 'ChamProofs.Props.C10Dyn']
+THEOREMS = ['ChamVerif.C10_dynamic_text_once', 'ChamVerif.C10_dynamic_number_once', 'ChamVerif.C10_translate_once', 'ChamVerif.C10_translate_explicit', 'ChamVerif.C10_empty_not_translated', 'ChamVerif.C10_name_emits_placeholder',
             'ChamVerif.C10_collapse_idempotent', 'ChamVerif.C10_domain_restored', 'ChamVerif.I18n.neutral_all', 'ChamVerif.C10_settings_scoped',
             'ChamVerif.C10_on_error_leaks', 'ChamVerif.C10_other_offered', 'ChamVerif.C10_plain_not_offered',
             'ChamVerif.C10_conversion_offers_once', 'ChamVerif.C10_conversion_plain', 'ChamVerif.C10_false_boolean_not_offered']
@@ -28,7 +28,8 @@ LEVEL_TEXT = ('Proved in Lean on the interpreter model: evaluating a Translate n
               '(C10_false_boolean_not_offered). The full contract (nested translations, names under condition/repeat/omit-tag, '
               'i18n:attributes, implicit translation, macro/slot settings) is judged by a constructive oracle over an i18n grammar that '
               'predicts the ordered call log and the output for three translation functions, and the model is tied to the code by '
-              'correspondence of call logs.')
+              'correspondence of call logs.'
+              ' An element whose dynamic content is itself the message (tal:content / tal:replace with i18n:translate=""): a string value is handed over once, as a message, and the answer is inserted; a number is handed over as it is, once, and not offered again by the conversion (C10_dynamic_text_once, C10_dynamic_number_once; objects and sequences are in the model and tied by correspondence).')
 LEVEL_NOTE = ('Trusted: Lean kernel; the interpreter model. The offering of non-string inserted values is in the model since round 7 (TCall.offered; the call log of the correspondence contains '
               'those calls, 500 generated templates per quick run over every value class x insertion site x settings); float values are not in the model (oracle only). '
               'Settings across macro calls and slot fillers are in the model (macroEnter / fillerEnter; C10_settings_scoped). Known finding D-10a: settings made inside an element that fails under tal:on-error stay in force. D-14a (mapping '
